@@ -432,11 +432,32 @@ pub fn t_v1_presentation(data: &[u8], ctx: &mut Ctx) -> CheckResult {
         let subject_claims = req
             .subject_claims
             .iter()
-            .map(|c| {
+            .enumerate()
+            .map(|(ci, c)| {
                 let (nw, issuer, stmts, identity) = claims_parts(c);
+                // allowed issuers: the credential's (identity provider, network) pair among decoys that share
+                // only the provider or only the network with it (selector: a nonce byte, so that no further
+                // choice bytes are consumed)
+                let sel = mctx.nonce[ci % 32];
+                let other = match nw {
+                    Network::Mainnet => Network::Testnet,
+                    Network::Testnet => Network::Mainnet,
+                };
+                let mut issuers = Vec::new();
+                if sel & 1 != 0 {
+                    issuers.push(IdentityProviderDid::new(issuer.0, other));
+                }
+                if sel & 2 != 0 {
+                    issuers.push(IdentityProviderDid::new(issuer.0.wrapping_add(1), nw));
+                }
+                if sel & 4 != 0 {
+                    issuers.push(IdentityProviderDid::new(issuer.0.wrapping_add(1), other));
+                }
+                let at = (sel >> 3) as usize % (issuers.len() + 1);
+                issuers.insert(at, IdentityProviderDid::new(issuer.0, nw));
                 RequestedSubjectClaims::Identity(RequestedIdentitySubjectClaims {
                     statements: stmts.iter().map(requested_statement).collect(),
-                    issuers:    vec![IdentityProviderDid::new(issuer.0.wrapping_add(1), nw), IdentityProviderDid::new(issuer.0, nw)],
+                    issuers,
                     source:     vec![if identity { IdentityCredentialType::IdentityCredential } else { IdentityCredentialType::AccountCredential }],
                 })
             })
@@ -845,8 +866,16 @@ pub fn t_v1_presentation(data: &[u8], ctx: &mut Ctx) -> CheckResult {
                     "anchored:request-requested-label"
                 }
                 7 => {
+                    // the credential's own (identity provider, network) pair is no longer allowed; entries that
+                    // share only the provider or only the network remain
+                    let (nw, issuer, _, _) = claims_parts(&request.subject_claims[k]);
                     let RequestedSubjectClaims::Identity(c) = &mut vr.subject_claims[k];
-                    c.issuers.pop();
+                    let before = c.issuers.len();
+                    c.issuers.retain(|i| !(i.identity_provider == issuer && i.network == nw));
+                    assert_eq!(c.issuers.len() + 1, before);
+                    if c.issuers.iter().any(|i| i.identity_provider == issuer) && c.issuers.iter().any(|i| i.network == nw) {
+                        ctx.class("anchored:issuer-and-network-allowed-separately");
+                    }
                     "anchored:issuer-not-allowed"
                 }
                 8 => {
